@@ -5,6 +5,7 @@ from props import qcommon as qc
 
 
 class Grammar(qc.FullGrammar):
+    allow_main = True
     pool_template = True
 
 
